@@ -108,13 +108,13 @@ Definition put_bytes (m : bytes) : option bytes :=
   else if n <? two24 then Some ([254; n mod 256; (n / 256) mod 256; (n / 65536) mod 256] ++ m ++ zeros (padlen n))
   else None.
 
-(* Decoder.read: bytes.Reader.Read reports EOF on an exhausted reader even for an empty
-   buffer, and a short read is an error *)
+(* Decoder.read: nothing is read for an empty request; otherwise a short read is an error *)
 Definition take (n : N) (l : bytes) : option (bytes * bytes) :=
-  match l with
-  | [] => None
-  | _ :: _ => if blen l <? n then None else Some (firstn (N.to_nat n) l, skipn (N.to_nat n) l)
-  end.
+  if n =? 0 then Some ([], l)
+  else match l with
+       | [] => None
+       | _ :: _ => if blen l <? n then None else Some (firstn (N.to_nat n) l, skipn (N.to_nat n) l)
+       end.
 
 (* the alignment bytes are read only when there are any *)
 Definition take_pad (n : N) (l : bytes) : option (bytes * bytes) :=
@@ -167,11 +167,13 @@ Fixpoint be_bytes (w : nat) (n : N) : bytes :=
 (* ---------- facts ---------- *)
 Lemma take_app (a b : bytes) n : n = blen a -> a ++ b <> [] -> take n (a ++ b) = Some (a, b).
 Proof.
-  intros -> Hne. unfold take, blen. destruct (a ++ b) as [|x l] eqn:E; [congruence|]. rewrite <- E.
-  rewrite app_length.
-  destruct (N.ltb_spec (N.of_nat (length a + length b)) (N.of_nat (length a))); [lia|].
-  rewrite Nat2N.id, firstn_app, Nat.sub_diag, firstn_all, skipn_app, Nat.sub_diag, skipn_all.
-  cbn [firstn skipn app]. now rewrite app_nil_r.
+  intros -> Hne. unfold take, blen. destruct (N.eqb_spec (N.of_nat (length a)) 0) as [H0|H0].
+  - destruct a; [reflexivity|cbn [length] in H0; lia].
+  - destruct (a ++ b) as [|x l] eqn:E; [congruence|]. rewrite <- E.
+    rewrite app_length.
+    destruct (N.ltb_spec (N.of_nat (length a + length b)) (N.of_nat (length a))); [lia|].
+    rewrite Nat2N.id, firstn_app, Nat.sub_diag, firstn_all, skipn_app, Nat.sub_diag, skipn_all.
+    cbn [firstn skipn app]. now rewrite app_nil_r.
 Qed.
 
 Lemma all_zero_zeros n : all_zero (zeros n) = true.
